@@ -555,7 +555,7 @@ def check_property(prop, tier, seed, only=None, keep=False):
     shutil.rmtree(scratch_root, ignore_errors=True)
     os.makedirs(scratch_root)
     known = load_known()
-    timeout_s = P.get("timeout", {}).get(tier, 300 if tier == "quick" else 1200)
+    timeout_s = P.get("timeout", {}).get(tier, 600 if tier == "quick" else 1500)
     mem_gb = P.get("mem_gb", 16)
 
     # harnesses named hunt_* are bug-hunting only (DESIGN 1.8): own build, short timeout
@@ -599,6 +599,9 @@ def check_property(prop, tier, seed, only=None, keep=False):
         for b in builds:
             n = sum(len(h) for h in b.sel.values())
             jobs = max(1, min(n, round(NCPU * cost(b) / tot)))
+            # list harnesses under the map model need 2-9 GB each: never more than 10 at a time (62 GB machine)
+            if any(G.GROUPS[gn].get("weight", 1) >= 4 for gn in b.sel):
+                jobs = min(jobs, 10)
             th = threading.Thread(target=runb, args=(b, jobs))
             th.start()
             threads.append(th)
